@@ -238,6 +238,14 @@ CORNERS = [
     'define f with a return ' + '1' * 4301 + '', 'hue ' + '0' * 4301, 'hue ' + '1' * 4300, 'hue ' + '1' * 4301 + '.5',
     'repeat with i in "a" hue 5', 'repeat with i in', 'repeat 5 with i in "a" hue i', 'repeat all as x with i in "a" hue i',
     'repeat with i in all as x hue 5', 'repeat with in in "a" hue 5',
+    'repeat in {"a"} and {"b"} as l begin print l end', 'define f begin return "a" end repeat in [f] and "b" as l print l',
+    'define f with n begin return "a" end repeat in "b" and [f 1] and {"c"} as l print l',
+    'assign g "G" repeat in group {g} and "c" as l print l', 'assign g "G" repeat in "c" and group {g} as l print l',
+    'assign z 0 repeat in {not z} and "b" as l print l', 'repeat in not 1 and "b" as l print l',
+    'repeat in location [round 1] and group {1 + 2} as x hue 5', 'repeat in {"a" as l print l',
+    'repeat in [nosuch] as l print l', 'repeat in {1 +} and "b" as l print l', 'repeat in group {1 +} as l print l',
+    'repeat in {[round {1}] + 2} and [round [floor {3}]] as l print l', 'repeat in all and {"a"} as l print l',
+    'repeat all as x with i from {1} to [round 5] hue i', 'repeat in {"a"} and {"b"} as l with i cycle {90} hue i',
     'hue {1 + 2 * }', 'hue {1 + 2 * 3 ^ }', 'hue {1 + 2 ^ (3}', 'repeat with i from 1 to i hue i',
     'repeat with i from i to 5 hue i', 'assign i 1 repeat with i from i to i hue i',
     'repeat 3 with i cycle i hue i', 'repeat with i in i hue 5', 'repeat with i from 1 to 5 repeat with j from i to 5 hue j',
